@@ -301,12 +301,21 @@ class Visitor(ast.NodeVisitor):
     # pylint: disable=invalid-name
     # pylint: disable=missing-docstring
 
-    def __init__(self, variable_lookup: List[Mapping[str, Any]]) -> None:
+    def __init__(
+        self,
+        variable_lookup: List[Mapping[str, Any]],
+        mangled_names: Optional[Mapping[str, str]] = None,
+    ) -> None:
         """
         Initialize.
 
         :param variable_lookup: list of lookup tables to look-up the values of the variables, sorted by precedence
+        :param mangled_names:
+            private names (``__some_name``) as written in the source code of the condition mapped to the names
+            to which the compiler mangled them (``_SomeClass__some_name``), if the condition was written in a class body
         """
+        self._mangled_names = mangled_names if mangled_names is not None else dict()
+
         # _name_to_value maps the variable names to variable values.
         # This is important for Load contexts as well as Store contexts in, e.g., named expressions.
         self._name_to_value = dict()  # type: Dict[str, Any]
@@ -537,6 +546,9 @@ class Visitor(ast.NodeVisitor):
         # or for a name local to the lambda.
         if node.id in self._name_to_value:
             result = self._name_to_value[node.id]
+        elif self._mangled_names.get(node.id, None) in self._name_to_value:
+            # A private name written in a class body has been mangled by the compiler.
+            result = self._name_to_value[self._mangled_names[node.id]]
         elif hasattr(builtins, node.id):
             result = getattr(builtins, node.id)
         elif node.id != "None":
@@ -835,7 +847,8 @@ class Visitor(ast.NodeVisitor):
                 )
             )
 
-        result = getattr(value, node.attr)
+        # A private name written in a class body has been mangled by the compiler.
+        result = getattr(value, self._mangled_names.get(node.attr, node.attr))
 
         self.recomputed_values[node] = result
         return result
@@ -968,7 +981,11 @@ class Visitor(ast.NodeVisitor):
         # you probably want to use ``astor`` module to generate the source code
         # based on the ``module_node``.
 
-        code = compile(source=module_node, filename="<ast>", mode="exec")
+        code = compile(
+            source=self._mangle(module_node=module_node),
+            filename="<ast>",
+            mode="exec",
+        )
 
         module_locals = {}  # type: Dict[str, Any]
         module_globals = {}  # type: Dict[str, Any]
@@ -988,6 +1005,32 @@ class Visitor(ast.NodeVisitor):
         return FirstExceptionInAll(
             result=result, inputs=cast(Tuple[Tuple[str, Any]], inputs)
         )
+
+    def _mangle(self, module_node: ast.Module) -> ast.Module:
+        """
+        Rename the private names in the generated module to the names mangled by the compiler of the condition.
+
+        The generated module is compiled outside of the class body in which the condition was written.
+        The module is copied since it shares the nodes with the abstract syntax tree of the condition.
+        """
+        if not self._mangled_names:
+            return module_node
+
+        mangled_names = self._mangled_names
+
+        class _Mangler(ast.NodeTransformer):
+            def visit_Attribute(self, node: ast.Attribute) -> Any:
+                self.generic_visit(node)
+                node.attr = mangled_names.get(node.attr, node.attr)
+                return node
+
+            def visit_Name(self, node: ast.Name) -> Any:
+                node.id = mangled_names.get(node.id, node.id)
+                return node
+
+        result = _Mangler().visit(copy.deepcopy(module_node))
+        assert isinstance(result, ast.Module)
+        return result
 
     def _execute_comprehension(
         self, node: Union[ast.ListComp, ast.SetComp, ast.GeneratorExp, ast.DictComp]
@@ -1038,7 +1081,11 @@ class Visitor(ast.NodeVisitor):
 
         ast.fix_missing_locations(module_node)
 
-        code = compile(source=module_node, filename="<ast>", mode="exec")
+        code = compile(
+            source=self._mangle(module_node=module_node),
+            filename="<ast>",
+            mode="exec",
+        )
 
         module_locals = {}  # type: Dict[str, Any]
         module_globals = {}  # type: Dict[str, Any]
